@@ -42,6 +42,17 @@ def rewrite (value new : Bytes) : Option Bytes :=
   if new = oldEch (splitSp value) then none
   else some (joinSp ((splitSp value).filter (fun t => ¬ isEch t) ++ [echToken new]))
 
+/-- one publish of `new` on a stored value: the value afterwards (`StatusNoChange` keeps it) -/
+def publishOne (value new : Bytes) : Bytes :=
+  match rewrite value new with
+  | some v => v
+  | none => value
+
+/-- a history of publishes with changing config lists, applied to one record's stored value -/
+def publishSeq (value : Bytes) : List Bytes → Bytes
+  | [] => value
+  | n :: ns => publishSeq (publishOne value n) ns
+
 /-! ### abstract API -/
 
 structure Rec where
